@@ -200,6 +200,8 @@ func (w *fcWorld) do(g int, op *Op) string {
 	})
 }
 
+func (w *fcWorld) state() any { return w }
+
 func (w *fcWorld) observe() string {
 	fc := w.fc
 	var b strings.Builder
@@ -248,20 +250,18 @@ func fcMeta(op *Op) meta {
 		return meta{M: "UpdateJustified", Write: true, Keys: []string{"*"}}
 	case fcsim.KPin:
 		return meta{M: "SetPin", Write: true, Keys: append(k(o.R), "pin")}
-	// Head, FindHead, CanonicalChain, CanonAtSlot, Search, InSubtree read the abstract state but refresh the
-	// best-child links / apply pending votes inside the component: they are mutators for the state key.
 	case fcsim.KHead:
-		return meta{M: "Head", Impure: true, Keys: []string{"*"}}
+		return meta{M: "Head", Keys: []string{"*"}}
 	case fcsim.KFHead:
-		return meta{M: "FindHead", Impure: true, Keys: []string{"*"}}
+		return meta{M: "FindHead", Keys: []string{"*"}}
 	case fcsim.KChain:
-		return meta{M: "CanonicalChain", Impure: true, Keys: []string{"*"}}
+		return meta{M: "CanonicalChain", Keys: []string{"*"}}
 	case fcsim.KCanon:
-		return meta{M: "CanonAtSlot", Impure: true, Keys: []string{"*"}}
+		return meta{M: "CanonAtSlot", Keys: []string{"*"}}
 	case fcsim.KSearch:
-		return meta{M: "Search", Impure: true, Keys: []string{"*"}}
+		return meta{M: "Search", Keys: []string{"*"}}
 	case fcsim.KInSub:
-		return meta{M: "InSubtree", Impure: true, Keys: k(o.P, o.R)}
+		return meta{M: "InSubtree", Keys: k(o.P, o.R)}
 	case fcsim.KClosest:
 		return meta{M: "ClosestToSlot", Write: false, Keys: k(o.R)}
 	case fcsim.KGetSlot:
